@@ -112,6 +112,9 @@ def ops_of(fx, fn, seen=None):
                 out |= ops_of(fx, c, seen)
             elif _numeric_callee(c):
                 out.add('call:' + c)
+            elif c.endswith('PartialOrd for f64>::partial_cmp'):
+                # the IEEE order of two reals, which the comparison words otherwise spell `a < b` / `a > b`
+                out |= {'bin:Lt:f64', 'bin:Gt:f64'}
             elif c.startswith('core::cmp::Ordering::is_'):
                 out.add('ordtest:' + c.split('::')[-1])
             for a in t['args']:
@@ -200,6 +203,24 @@ def check_cmp_operands(rep, fx):
             direct = sa.startswith('cell::Cell::to_xint(') and 'pop_data' in sa and 'pop_data' in sb and 'wrapping' not in sa + sb and 'bin' not in sa + sb
             ok = direct
             why = 'a.cmp(b) on the two popped integers' if ok else 'Ord::cmp is applied to %s and %s, not to the operands themselves' % (sa[:50], sb[:50])
+    if not ok:
+        # the same comparison handed to Result::map as a closure: `lhs.to_xint().map(|a| a.cmp(b))`
+        for bb, t in f.calls():
+            c = callee_of(t) or ''
+            if not c.endswith('Result::<T, E>::map') or len(t['args']) != 2:
+                continue
+            recv = expr_str(f.expr_of_operand(t['args'][0]), -20)
+            clos = [x for x in expr_walk(f.expr_of_operand(t['args'][1])) if isinstance(x, tuple) and x and x[0] == 'closure']
+            if not (recv.startswith('cell::Cell::to_xint(') and 'pop_data' in recv and 'wrapping' not in recv and clos and clos[0][1] in fx.fns):
+                continue
+            g2 = fx.fns[clos[0][1]]
+            for _, t2 in g2.calls():
+                c2 = callee_of(t2) or ''
+                if c2.endswith('Ord for i128>::cmp') or c2 == 'core::cmp::Ord::cmp':
+                    sa, sb = expr_str(g2.expr_of_operand(t2['args'][0]), -10), expr_str(g2.expr_of_operand(t2['args'][1]), -10)
+                    caps = repr(clos[0])
+                    if 'arg2' in sa and 'arg1' in sb and 'bin' not in sa + sb and 'wrapping' not in sa + sb and 'pop_data' in caps:
+                        ok, why = True, 'a.cmp(b) on the two popped integers (as the closure of Result::map)'
     rep.add('C09.R4', 'C09.R4:compare_cells:compares-operands', ok, why, f.name, f.j['span'])
     g = fx.need('arith::compare_reals')
     txt = []
@@ -210,6 +231,14 @@ def check_cmp_operands(rep, fx):
             if c:
                 txt.append((c[0], expr_str(c[1]), expr_str(c[2])))
     okr = sorted(txt) == [('Gt', 'arg1', 'arg2'), ('Lt', 'arg1', 'arg2')]
+    if not okr and not txt:
+        # the same order spelled a.partial_cmp(&b).unwrap_or(Equal): no answer (a NaN) counts as Equal, as in the if-chain
+        pc = [t for _, t in g.calls() if (callee_of(t) or '').endswith('PartialOrd for f64>::partial_cmp')]
+        uo = [t for _, t in g.calls() if (callee_of(t) or '').endswith('::unwrap_or')]
+        if len(pc) == 1 and len(uo) == 1:
+            a0, a1 = expr_str(g.expr_of_operand(pc[0]['args'][0]), -6), expr_str(g.expr_of_operand(pc[0]['args'][1]), -6)
+            dflt = repr(g.expr_of_operand(uo[0]['args'][1]))
+            okr = 'arg1' in a0 and 'arg2' in a1 and 'Equal' in dflt
     rep.add('C09.R4', 'C09.R4:compare_reals:a<b,a>b', okr, 'Less iff a < b, Greater iff a > b, else Equal' if okr else 'compare_reals tests %s' % txt, g.name, g.j['span'])
 
 
